@@ -212,6 +212,8 @@ def merge(per_thread, schedule, t0=0x10000001, dts=None, tsmode=None):
                 rec['ts'] = t0 + 64 + 16 * (i + v) + (i % 16)
             elif kind == 'ties':
                 rec['ts'] = t0 + (i // (2 + (v % 3)))
+            elif kind == 'frozen':
+                rec['ts'] = t0          # a clock that does not advance during the capture: every record carries the same tick
     return out
 
 
